@@ -1,37 +1,85 @@
 (* C14 — requests built by the HTTP client are recovered exactly by the
    server's request parser and WSGI environ.  Statements only; proofs are in
-   Proofs/HttpReqProofs.v.  The model (Model/HttpReq.v) is of the tree after
-   the two D20 fix commits (query keys and form fields are quoted).
+   Proofs/HttpReq*.v.  The model (Model/HttpReq.v) is of the tree after the two
+   D20 fix commits (query keys and form fields are quoted).
 
-   Full statement (not proved in this generality):
-     forall host port r, wf_request r = true -> roundtrip o host port r = true
+   Main statement (C14_roundtrip, proved for ALL requests):
+     wf_request r = true -> wf_endpoint host port = true -> roundtrip o host port r = true
    i.e. parse_request (build r) succeeds and yields the method, the path, the
    query arguments (through parse_qsl of QUERY_STRING), every header value
    (names case-insensitively, also as HTTP_* environ keys) and the body bytes
-   (form fields through parse_qsl of the body) of r.
-   Proved: the statement on an explicit finite grid of 2700 requests
-   (C14_roundtrip_partial), and, for all inputs, the two codec facts the full
-   proof rests on: percent-coding is inverted by unquote on every byte string
-   (C14_percent_roundtrip) and every BMP scalar value decodes back from
-   its UTF-8 encoding (C14_utf8_bmp).  Missing for the full theorem: the
-   composition lemma utf8_dec (utf8_enc s) = s for strings and the
-   tokenisation lemmas (a quoted target contains no blank, '?', '#'; a packed
-   header splits at the first ': '); the differential check covers that gap
-   with generated requests on every run. *)
-From Hio Require Import Base.Prelude Model.HttpReqUrl Model.HttpTotal Model.HttpReq Proofs.HttpReqProofs.
+   (form fields through parse_qsl of the body) of r - for every outcome of
+   the external url checks.  wf_request is a boolean predicate: one of the 9
+   methods; an absolute path of Unicode scalar values without '?', '#', TAB,
+   CR, LF and not starting with '//'; query / form dicts of scalar-value
+   strings; token header names that are distinct case-insensitively, latin-1
+   values without CR/LF, no Transfer-Encoding, an explicit Content-Length
+   equal to the body length; and hio's parser limits (request line and header
+   lines of at most 65536 bytes, at most 100 header fields, body length below
+   10^40).  C14_history lifts it to every build of every history of rebuilds
+   on one Requester. *)
+From Hio Require Import Base.Prelude Model.HttpReqUrl Model.HttpTotal Model.HttpReq Proofs.HttpReqProofs
+     Proofs.HttpReqCodec Proofs.HttpReqQuery Proofs.HttpReqHeaders Proofs.HttpReqTarget Proofs.HttpReqRoundtrip.
 From Coq Require Import String.
 Local Open Scope N_scope.
 
-(* Domain: 3 methods (GET, POST, DELETE) x 6 paths (blank, non-ASCII, non-BMP, literal %41, every
-   sub-delimiter) x 5 query dicts (keys with & = + % # ? ; / blank, non-ASCII,
-   empty key, empty value) x 3 header sets (mixed-case names, values with
-   ': ', leading/trailing blanks, latin-1, empty) x 5 bodies (none, binary,
-   JSON, form with & = + in fields, empty form) x {without, with} explicit
-   Content-Length. *)
-Theorem C14_roundtrip_partial : forall r, In r grid ->
+Theorem C14_roundtrip : forall o host port r,
+  wf_request r = true -> wf_endpoint host port = true -> roundtrip o host port r = true.
+Proof. exact roundtrip_general. Qed.
+Print Assumptions C14_roundtrip.
+
+(* a non-trivial request in the domain: non-ASCII and non-BMP path, reserved characters in keys
+   and values, mixed-case header names, a form body, explicit Content-Length *)
+Example C14_wf_example :
+  let r := {| q_method := str "POST"; q_path := str "/a b/" ++ [233; 8364; 128512] ++ str "/100%/%41;=:@";
+              q_qargs := [(str "k&1", str "v=2&x"); (str "sp ace", [233]); ([], str "+%"); (str "#?/", [])];
+              q_headers := [(str "x-UPPER", str "A: b"); (str "X-Thing", str " lead "); (str "cookie", []);
+                            (str "content-LENGTH", str "15")];
+              q_body := Form [(str "a&b", str "c=d&e")] |} in
+  wf_request r = true /\ wf_endpoint ghost 8080 = true.
+Proof. vm_compute. split; reflexivity. Qed.
+
+(* the same for a Requester that builds several requests in a row: every build of every history
+   whose request is well formed is recovered *)
+Theorem C14_history : forall o host port ops st, wf_endpoint host port = true ->
+  Forall (fun rw => wf_request (fst rw) = true ->
+                    exists p, parse_request o (snd rw) = Ok p /\ recovered (fst rw) p = true)
+         (history host port st ops).
+Proof.
+  intros o host port ops st Hep. eapply Forall_impl; [|apply history_roundtrip].
+  intros rw H Hwf. apply H. now apply roundtrip_general.
+Qed.
+Print Assumptions C14_history.
+
+(* the layers of the proof that are of independent interest *)
+Theorem C14_utf8_roundtrip : forall s, text_ok s = true -> utf8_dec (utf8_enc s) = s.
+Proof. exact utf8_dec_enc. Qed.
+Print Assumptions C14_utf8_roundtrip.
+
+Theorem C14_unquote_quote : forall s, text_ok s = true ->
+  unquote (quote_path s) = s /\ unquote_plus (quote_plus [] s) = s.
+Proof.
+  intros s H. split; [apply unquote_quote; [split; reflexivity|exact H]|now apply unquote_plus_quote_plus].
+Qed.
+Print Assumptions C14_unquote_quote.
+
+Theorem C14_query_roundtrip : forall l,
+  forallb (fun kv => text_ok (fst kv) && text_ok (snd kv)) l = true -> parse_qsl (enc_pairs l) = l.
+Proof. exact parse_qsl_enc_pairs. Qed.
+Print Assumptions C14_query_roundtrip.
+
+Theorem C14_headers_roundtrip : forall hl h fuel body,
+  forallb field_ok hl = true -> distinct_keys (h ++ hl) = true ->
+  (List.length h + List.length hl <= 100)%nat -> (List.length hl < fuel)%nat ->
+  leader_all fuel h (flat_map hline hl ++ CRLFb ++ body) = Ok (h ++ titled hl, body).
+Proof. exact leader_all_fields. Qed.
+Print Assumptions C14_headers_roundtrip.
+
+(* regression: the finite grid of the first version (2700 requests) *)
+Theorem C14_roundtrip_grid : forall r, In r grid ->
   wf_request r = true /\ roundtrip o0 ghost 8080 r = true.
 Proof. exact grid_roundtrip. Qed.
-Print Assumptions C14_roundtrip_partial.
+Print Assumptions C14_roundtrip_grid.
 
 (* quote / quote_plus followed by unquote_to_bytes is the identity on every
    byte string, for every safe set that does not contain '%' *)
@@ -40,12 +88,6 @@ Theorem C14_percent_roundtrip : forall safe, mem_n 37 safe = false ->
   unquote_bytes (flat_map (quote_byte safe) bs) = bs.
 Proof. exact unquote_quote_bytes. Qed.
 Print Assumptions C14_percent_roundtrip.
-
-(* every scalar value of the Basic Multilingual Plane survives UTF-8
-   (exhaustive); beyond it a sparse sweep (every 97th value) is checked *)
-Theorem C14_utf8_bmp : forall c, c < 65536 -> scalar c = true -> utf8_dec (utf8_enc1 c) = [c].
-Proof. exact utf8_bmp_roundtrip. Qed.
-Print Assumptions C14_utf8_bmp.
 
 (* ---- a Requester that builds several requests in a row (rebuild with some or no
    arguments; the other attributes are carried over) ---- *)
